@@ -109,6 +109,8 @@ type FlowScenario struct {
 	LeafScripts  []LeafScript  `json:"leafScripts"`
 	BatchScripts []BatchScript `json:"batchScripts"`
 	Steps        []Step        `json:"steps"`
+	// Pairs [i, j]: runs i and j are runs of two nodes configured alike through different construction styles (C19)
+	Pairs [][]int `json:"pairs,omitempty"`
 }
 
 type RunObs struct {
